@@ -1,6 +1,8 @@
 package checks
 
 import (
+	"os"
+	"strconv"
 	"bytes"
 	"encoding/base64"
 	"encoding/binary"
@@ -226,4 +228,13 @@ func sizeBucket(w, h int) string {
 func nrgbaAt(m *image.NRGBA, x, y int) color.NRGBA {
 	i := m.PixOffset(x+m.Rect.Min.X, y+m.Rect.Min.Y)
 	return color.NRGBA{m.Pix[i], m.Pix[i+1], m.Pix[i+2], m.Pix[i+3]}
+}
+
+func getenvInt(name string, def int) int {
+	if s := os.Getenv(name); s != "" {
+		if v, err := strconv.Atoi(s); err == nil {
+			return v
+		}
+	}
+	return def
 }
